@@ -132,6 +132,12 @@ pub enum Surgery {
     /// lookups (type 2), each of which replaces every glyph of `glyphs` by `k` glyphs of the list:
     /// the run grows by a factor `k` per lookup. No corpus font expands by more than a few glyphs.
     InstallExpansion { glyphs: Vec<u16>, k: u16, lookups: u8, variant: u64 },
+    /// Replace GSUB by a small table whose `ccmp`/`liga` features hold one contextual lookup
+    /// (type 5 or 6, format 3) on `glyph` whose rule has `records` lookup records, each naming the
+    /// next contextual lookup of the same shape, `depth` levels deep, ending in a SingleSubst: the
+    /// nesting is within the library's limit while the number of nested applications is
+    /// `records ^ depth`.
+    InstallContextFanout { glyph: u16, records: u16, depth: u8, variant: u64 },
     /// Re-pack `hmtx` with only `num_h_metrics` long metrics (glyphs after that take the last
     /// advance and keep their side bearing) and update `hhea`. Every corpus CFF2 font and most
     /// others have numberOfHMetrics == numGlyphs, which hides the compact form from the writers.
